@@ -123,8 +123,15 @@ func classSig(ps []proto) string {
 
 // checkCollection checks the canonical-encoding and round-trip clauses for one
 // collection in one construction order.
+// mdCtx is the metadata context collections are built and decoded in: the
+// default one, or one derived from it (once, twice) with WithProtocol.
+var (
+	mdCtx     = metadata.Default
+	ctxPrefix = ""
+)
+
 func checkCollection(r *vp.Recorder, ps []proto, distinctIDs bool) []byte {
-	key := "coll|" + labels(ps)
+	key := "coll|" + ctxPrefix + labels(ps)
 	if !r.Mine(key) {
 		return nil
 	}
@@ -153,7 +160,7 @@ func checkCollection(r *vp.Recorder, ps []proto, distinctIDs bool) []byte {
 	}
 	var got []byte
 	var err error
-	md := metadata.Default.New(vals...)
+	md := mdCtx.New(vals...)
 	if p, m := vp.Guard(func() { got, err = md.MarshalBinary() }); p {
 		r.Violation("encode:panic", key, m, nil)
 		return nil
@@ -178,7 +185,7 @@ func checkCollection(r *vp.Recorder, ps []proto, distinctIDs bool) []byte {
 	// the decoder is handed a buffer of the caller's, which the caller reuses
 	// as soon as the call has returned (encoding.BinaryUnmarshaler: "must copy
 	// the data if it wishes to retain the data after returning")
-	md2 := metadata.Default.New()
+	md2 := mdCtx.New()
 	in := append([]byte(nil), got...)
 	if p, m := vp.Guard(func() { err = md2.UnmarshalBinary(in) }); p {
 		r.Violation("roundtrip:panic:"+classSig(ps), key, m, nil)
@@ -392,7 +399,7 @@ func firstLine(s string) string {
 
 func TestCheck(t *testing.T) {
 	r := vp.New("C11", "exploration",
-		"collections: every subset of 8 distinct protocol IDs (bitswap, graphsync-filecoin, gateway, 5 unknown codes) of size 1..N in every construction order; every variant combination (8 graphsync values, unknown payload lengths, bitswap and gateway handed over as pointer and by value) for subsets of size <=K in sorted and reversed order; collections with repeated IDs; the buffer handed to the decoder is overwritten by the caller right after the call, before the decoded metadata is compared. Decoder: for every corpus encoding every single-byte substitution, every truncation, every boundary varint written at every byte offset over 1..3 bytes, unknown-protocol headers declaring every length of the systematic set (2^k-1, 2^k, 2^k+1 for all k; the 25 values below 2^63 and below 2^64; the size limit +-12) for 6 codes x 3 tails; unknown payloads of every length 0..MaxMetadataSize; graphsync-filecoin with identity piece CIDs of 0..300 digest bytes; two-protocol out-of-order concatenations, and all byte strings of length <=2. Non-trivial: collections of >=2 protocols; decoder inputs other than the unmodified corpus.",
+		"collections: every subset of 8 distinct protocol IDs (bitswap, graphsync-filecoin, gateway, 5 unknown codes) of size 1..N in every construction order, those of size <=3 also in metadata contexts derived once and twice from the default one (WithProtocol); every variant combination (8 graphsync values, unknown payload lengths, bitswap and gateway handed over as pointer and by value) for subsets of size <=K in sorted and reversed order; collections with repeated IDs; the buffer handed to the decoder is overwritten by the caller right after the call, before the decoded metadata is compared. Decoder: for every corpus encoding every single-byte substitution, every truncation, every boundary varint written at every byte offset over 1..3 bytes, unknown-protocol headers declaring every length of the systematic set (2^k-1, 2^k, 2^k+1 for all k; the 25 values below 2^63 and below 2^64; the size limit +-12) for 6 codes x 3 tails; unknown payloads of every length 0..MaxMetadataSize; graphsync-filecoin with identity piece CIDs of 0..300 digest bytes; two-protocol out-of-order concatenations, and all byte strings of length <=2. Non-trivial: collections of >=2 protocols; decoder inputs other than the unmodified corpus.",
 		"unknown protocols are constructed the way the decoder builds them (payload holds code, length prefix and data)",
 		"collections with repeated IDs are only required to be ID-sorted and to round-trip as a multiset (order among equal IDs is not defined by the statement)",
 		"allocation bound used: 64 KiB + 64 x input length, measured with runtime/metrics /gc/heap/allocs:bytes (span-granular for small objects)",
@@ -436,6 +443,31 @@ func TestCheck(t *testing.T) {
 			addCorpus(specEncode(sub))
 		}
 	}
+	// (a') the same collections in contexts derived from the default one with
+	// WithProtocol, once and twice (two extra protocol codes registered that
+	// the collections do not use): the known protocols stay known
+	extraFactory := func() metadata.Protocol { return &metadata.Unknown{} }
+	once := metadata.Default.WithProtocol(multicodec.Code(0x3f0001), extraFactory)
+	twice := once.WithProtocol(multicodec.Code(0x3f0002), extraFactory)
+	for _, dc := range []struct {
+		name string
+		ctx  metadata.MetadataContext
+	}{{"derived-once|", once}, {"derived-twice|", twice}} {
+		mdCtx, ctxPrefix = dc.ctx, dc.name
+		for mask := 1; mask < 1<<n; mask++ {
+			var sub []proto
+			for i := 0; i < n; i++ {
+				if mask&(1<<i) != 0 {
+					sub = append(sub, slots[i][0])
+				}
+			}
+			if len(sub) > 3 {
+				continue
+			}
+			permute(sub, func(p []proto) { checkCollection(r, p, true) })
+		}
+	}
+	mdCtx, ctxPrefix = metadata.Default, ""
 	// (b) every variant combination for subsets of size <= maxK, sorted and reversed
 	for mask := 1; mask < 1<<n; mask++ {
 		var idx []int
